@@ -87,6 +87,35 @@ Section C07.
       In (strip c) (calls_by id (s_calls (p_st (run e tr (lift st))))) /\
       e_obj e c = Ok costs /\ c_vec c = ivec i' /\ icosts i' = costs /\ istate i' = Evaluated.
   Proof. exact (parallel_costs_belong_to_vector T ltb zero roundp smul). Qed.
+
+  (* the store under lock contention: a write attempt SQLite refuses ("database is locked") is retried by
+     sync_individual until it goes through (Model/Parallel.v xstep); an execution may contain any number of refused
+     attempts anywhere, provided every write goes through in the end (the execution without the refused attempts
+     is a complete interleaving of the tasks = "the lock is eventually released"): the observation is that of
+     evaluate_serial - in particular a refused write is never taken for a failed evaluation *)
+  Notation xrun := (xrun ltb zero roundp smul).
+
+  Theorem C07_refused_store_writes_invisible : forall (e : env T), local_env e -> forall batch st st' xtr,
+    NoDup batch -> evaluate_serial e st batch = (st', Done) ->
+    merge (par_tasks e (s_heap st) batch) (erase xtr) ->
+    let st_par := p_st (xrun e xtr (lift st)) in
+    s_heap st_par = s_heap st' /\ s_pop st_par = s_pop st' /\
+    Permutation (s_failed st_par) (s_failed st') /\
+    (forall id, syncs_by id (s_store st_par) = syncs_by id (s_store st')) /\
+    Permutation (s_store st_par) (s_store st') /\
+    (forall id, calls_by id (s_calls st_par) = calls_by id (s_calls st')) /\
+    Permutation (map (@strip T) (s_calls st_par)) (map (@strip T) (s_calls st')).
+  Proof. exact (refused_writes_invisible T ltb zero roundp smul). Qed.
+
+  Theorem C07_refused_store_writes_once_and_persisted : forall (e : env T), local_env e -> forall batch st st' xtr,
+    NoDup batch -> s_calls st = [] -> evaluate_serial e st batch = (st', Done) ->
+    merge (par_tasks e (s_heap st) batch) (erase xtr) ->
+    Permutation (s_failed (p_st (xrun e xtr (lift st)))) (s_failed st') /\
+    forall id i, In id batch -> nth_error (s_heap st) id = Some i -> istate i = Empty ->
+      length (okc e id (s_calls (p_st (xrun e xtr (lift st))))) = 1 /\
+      exists i', nth_error (s_heap (p_st (xrun e xtr (lift st)))) id = Some i' /\
+                 row_of id (s_store (p_st (xrun e xtr (lift st)))) = Some i' /\ istate i' = Evaluated.
+  Proof. exact (refused_writes_once_and_persisted T ltb zero roundp smul). Qed.
 End C07.
 
 Print Assumptions C07_steps_commute.
@@ -96,6 +125,8 @@ Print Assumptions C07_parallel_equals_evaluate_serial.
 Print Assumptions C07_objective_once_per_design.
 Print Assumptions C07_every_evaluated_design_persisted.
 Print Assumptions C07_costs_belong_to_vector.
+Print Assumptions C07_refused_store_writes_invisible.
+Print Assumptions C07_refused_store_writes_once_and_persisted.
 
 (* ---------------------------------------------------------------------------------------------------
    Non-vacuity: a concrete world over Z (objective = [x0 + x1; x0 * x1], first objective maximised,
@@ -193,3 +224,22 @@ Proof.
   - repeat pick_task. cbn [app]. apply merge_done. repeat constructor.
   - discriminate.
 Qed.
+
+(* the store refuses writes: design 4 is refused three times, design 1 six times in a row, design 0 once, each while it
+   is writing (after its KWrite, before its KSync); without
+   the refusals the execution is the merge above, and the run ends exactly as without them: nothing in failed but the
+   one scripted failure, one row per evaluated design *)
+Definition x (id att : nat) (k : kind) : xstep := XStep (mkstep id att k).
+Definition ex_xtrace : list xstep :=
+  [x 0 0 KStart; x 1 0 KStart; x 4 0 KStart; x 0 0 KObj; x 4 0 KObj; x 1 0 KObj; x 1 0 KFail; x 4 0 KWrite;
+   XRefused 4 0; x 1 0 KReroll; x 0 0 KWrite; XRefused 4 0; x 1 1 KStart; x 1 1 KObj; XRefused 4 0; x 4 0 KSync;
+   x 1 1 KWrite; XRefused 1 1; XRefused 1 1; XRefused 1 1; XRefused 1 1; XRefused 1 1; XRefused 1 1; x 1 1 KSync;
+   XRefused 0 0; x 0 0 KSync].
+
+Example C07_ex_refused_writes :
+  erase ex_xtrace = ex_trace /\ refusals_while_writing [] ex_xtrace = true /\
+  length (filter (fun y => match y with XRefused _ _ => true | _ => false end) ex_xtrace) = 10%nat /\
+  let st_x := p_st (xrun Z.ltb 0 (fun _ x => x) ex_smul ex_env ex_xtrace (lift ex_st)) in
+  st_x = p_st (run Z.ltb 0 (fun _ x => x) ex_smul ex_env ex_trace (lift ex_st)) /\
+  map (@ivec Z) (s_failed st_x) = [[3; 4]] /\ length (s_calls st_x) = 4%nat /\ length (s_store st_x) = 3%nat.
+Proof. vm_compute. repeat split. Qed.
